@@ -219,6 +219,7 @@ type World struct {
 	stopElapsed int64
 	trace []string
 	alias      map[string]string
+	baseStore  *core.RecStore
 	trunk      []string
 	shadow     map[int]bitcoin.Hash32
 	shadowTip  int
